@@ -20,7 +20,7 @@ def describe(tier):
                 % (nmax, 20),
         'bounds': 'n<=%d exhaustive over inputs; 3 keys' % nmax,
         'assumptions': ['n = 1 is outside the property (it starts at n = 2)', 'non-default constructions: even round counts {2,4,6,8,12,16} x {sha1,sha256,md5,sha512}, all inputs of n = 2..8 (10); an odd round count is outside (upstream pyffx construction: with unequal halves it is its own inverse only for an even number of rounds; nothing in the library uses one)', 'keys are DRBG values (3 per width)'],
-        'must_be_nonzero': ['ffx-exhaustive-widths', 'ffx-nondefault-construction', 'ffx-key-histories', 'ffx-operator-built-messages', 'ffx-wide', 'fpeprp-contract', 'lr-2byte-exhaustive', 'lr-4byte-slices', 'lr-contract-refused'],
+        'must_be_nonzero': ['ffx-exhaustive-widths', 'ffx-nondefault-construction', 'ffx-key-histories', 'ffx-operator-built-messages', 'ffx-wide', 'fpeprp-contract', 'lr-2byte-exhaustive', 'lr-4byte-slices', 'lr-contract-refused', 'prp-objects-alive-at-once'],
     }
 
 
@@ -395,6 +395,31 @@ def run_unit(p, tier, seed):
         for alias in ('HmacLubyRackoffPRP', 'hmac-luby-rackoff-prp', 'hmac_luby_rackoff_prp'):
             if get_prp_implementation(alias) is not P:
                 r.v(PROPERTY, 'prp-lookup', 'alias', alias, {'alias': alias}, 'same class', 'different')
+        # several PRP objects with different declared domains alive at once, used in every order after all of them exist
+        import itertools
+        PB = get_prp_implementation('BitwiseFPEPRP')
+        objs = {'lr4': (P(message_length=4, key_length=48), lambda o, k, m: o(bytes([k]) * 48, bytes([m]) * 4), 4),
+                'lr8': (P(message_length=8, key_length=24, hash_func_name='sha256'), lambda o, k, m: o(bytes([k]) * 24, bytes([m]) * 8), 8),
+                'fpe8': (PB(key_bit_length=128, message_bit_length=8), lambda o, k, m: o(Bitset(k | 1 << 127, 128), Bitset(m, 8)), 8),
+                'fpe16': (PB(key_bit_length=192, message_bit_length=16), lambda o, k, m: o(Bitset(k | 1 << 191, 192), Bitset(m, 16)), 16)}
+        first = {}
+        for order in itertools.permutations(objs):
+            for nm in order:
+                o, call, n = objs[nm]
+                c_ = {'objects_alive': sorted(objs), 'used': nm, 'order': list(order)}
+                r['evaluations'] += 1
+                try:
+                    y = call(o, 7, 9)
+                    img = bytes(y) if not isinstance(y, bytes) else y
+                    if len(y) != n:
+                        r.v(PROPERTY, 'prp-objects', 'length', 'objects-alive-at-once', c_, n, len(y))
+                    if first.setdefault(nm, img) != img:
+                        r.v(PROPERTY, 'prp-objects', 'determinism', 'objects-alive-at-once', c_, 'same image as the first time', 'differs')
+                    r.count('prp-objects-alive-at-once')
+                except Exception as e:
+                    r.v(PROPERTY, 'prp-objects', 'contract', 'own-valid-input-refused-while-other-objects-exist', c_, 'accepted', core.exc_text(e))
+                other = 'lr8' if nm == 'lr4' else 'lr4' if nm == 'lr8' else 'fpe16' if nm == 'fpe8' else 'fpe8'
+                must_raise('other-objects-lengths', lambda: objs[other][1](o, 7, 9), dict(c_, lengths_of=other))
         r.sample({'prim': 'LubyRackoff contracts'})
     det.restore()
     return r
